@@ -7,6 +7,13 @@ VIS_METRIC = '<trackers::visual_sort::metric::VisualMetric as track::Observation
 VIS = 'trackers::visual_sort::metric::VisualMetric'
 BOXF = 'utils::kalman::kalman_2d_box::Universal2DBoxKalmanFilter'
 
+HELPER = {
+    'usable': VIS + '::feature_can_be_used',
+    'visual': VIS + '::visual_metric',
+    'positional': VIS + '::positional_metric',
+    'gallery': VIS + '::optimize_observations',
+}
+
 POSITIONAL = {
     'sort': SORT_METRIC + '::metric',
     'visual': VIS + '::positional_metric',
@@ -336,7 +343,7 @@ def rule_histories(ctx, R):
     n = 0
     for kind, deques in (('sort', ['observed_boxes', 'predicted_boxes']),
                          ('visual', ['observed_boxes', 'predicted_boxes', 'observed_features'])):
-        b = ctx.anchor(R, T.ATTRS[kind] + '::update_history')
+        b = ctx.anchor(R, T.UPDATE_HISTORY[kind])
         if b is None:
             continue
         eb = ExprBuilder(b)
@@ -408,7 +415,7 @@ def rule_gallery(ctx, R):
     optimize(): trim, then push the new observation, swap it to the front, then recount"""
     F = ctx.F
     n = 0
-    b = ctx.anchor(R, VIS + '::optimize_observations')
+    b = ctx.anchor(R, HELPER['gallery'])
     if b is not None:
         eb = ExprBuilder(b)
         import votinglib as V
@@ -470,7 +477,7 @@ def rule_gallery(ctx, R):
     ob = ctx.anchor(R, VIS_METRIC + '::optimize')
     if ob is not None:
         eb = ExprBuilder(ob)
-        oo = ob.find_calls(VIS + '::optimize_observations')
+        oo = ob.find_calls(HELPER['gallery'])
         ps = ob.find_calls('std::vec::Vec::push')
         sw = [c for c in ob.find_calls() if c.name == 'swap' and 'slice' in c.callee]
         n += 1
@@ -506,7 +513,7 @@ def rule_collect_gate(ctx, R_collect, R_use):
     *_use thresholds in metric(); its three conjuncts use >="""
     F = ctx.F
     n = 0
-    fb = ctx.anchor(R_use, VIS + '::feature_can_be_used')
+    fb = ctx.anchor(R_use, HELPER['usable'])
     if fb is not None:
         eb = ExprBuilder(fb)
         facts = []
@@ -558,7 +565,7 @@ def rule_collect_gate(ctx, R_collect, R_use):
     mb = ctx.anchor(R_use, VIS_METRIC + '::metric')
     if mb is not None:
         eb = ExprBuilder(mb)
-        cs = mb.find_calls(VIS + '::feature_can_be_used')
+        cs = mb.find_calls(HELPER['usable'])
         n += 1
         ok = len(cs) == 1
         if ok:
@@ -569,7 +576,7 @@ def rule_collect_gate(ctx, R_collect, R_use):
             fa = eb.arg(cs[0], 4)
             ok = ok and fq.has_call('visual_quality') and fa.has_call('own_area_percentage_opt') and \
                 fq.has_field('candidate_observation') and fa.has_field('candidate_observation')
-            vm = mb.find_calls(VIS + '::visual_metric')
+            vm = mb.find_calls(HELPER['visual'])
             g = all(any(k.kind == 'bool' and k.truth is True and k.expr.kind == 'call' and k.expr.extra is cs[0]
                         for k in path_conditions(mb, v.bb)) for v in vm) and bool(vm)
             ok = ok and g
@@ -580,7 +587,7 @@ def rule_collect_gate(ctx, R_collect, R_use):
     ob = ctx.anchor(R_collect, VIS_METRIC + '::optimize')
     if ob is not None:
         eb = ExprBuilder(ob)
-        cs = ob.find_calls(VIS + '::feature_can_be_used')
+        cs = ob.find_calls(HELPER['usable'])
         n += 1
         ok = len(cs) == 1
         if ok:
@@ -602,7 +609,7 @@ def rule_collect_gate(ctx, R_collect, R_use):
                         merge = any(k.kind == 'bool' and k.truth is True and k.expr.strip().kind == 'place' and
                                     k.expr.strip().root == ('param', 7) for k in conds)
                         notok = any(k.kind == 'bool' and k.truth is False and k.expr.kind == 'call' and
-                                    k.expr.name.endswith('feature_can_be_used') for k in conds)
+                                    k.expr.name == HELPER['usable'] for k in conds)
                         cleared = True
                         n += 1
                         ctx.check(merge and notok and v.kind == 'agg' and v.name.endswith('Option::None'), R_collect, ob,
